@@ -996,6 +996,27 @@ impl<'a> Gen<'a> {
             }
         } else if roll < 80 {
             // move
+            if self.ex.models.len() >= 2 && self.rng.below(10) < 4 {
+                // cross-model move of a package / element into the matching container of another model
+                let models = self.ex.models.clone();
+                let src_m = self.rng.below(models.len() as u64) as usize;
+                let dst_m = (src_m + 1 + self.rng.below(models.len() as u64 - 1) as usize) % models.len();
+                let want = if self.rng.below(3) == 0 { ElementName::Elements } else { ElementName::ArPackages };
+                let dk = self.pick_where(|e| e.element_name() == want && e.model().ok().as_ref() == Some(&models[dst_m]));
+                let mk = self.pick_where(|e| {
+                    e.model().ok().as_ref() == Some(&models[src_m])
+                        && e.parent().ok().flatten().map(|p| p.element_name() == want).unwrap_or(false)
+                });
+                if let (Some(dk), Some(mk)) = (dk, mk) {
+                    if self.rng.below(4) == 0 {
+                        let p = self.rng.below(self.ex.handles[dk].content_item_count() as u64 + 1) as usize;
+                        self.push(Op::MoveAt(dk, mk, p));
+                    } else {
+                        self.push(Op::Move(dk, mk));
+                    }
+                    return;
+                }
+            }
             let Some(dk) = self.pickh() else { return };
             let d = self.ex.handles[dk].clone();
             let validnames: Vec<ElementName> = d.list_valid_sub_elements().iter().map(|v| v.element_name).collect();
@@ -1111,6 +1132,20 @@ fn prologue(g: &mut Gen, variant: u64) {
         let r = g.push(Op::CreateSub(is, n.elidx("SYSTEM-SIGNAL-REF")));
         if let Some(rf) = r.strip_prefix("R OK h").and_then(|x| x.parse::<usize>().ok()) {
             g.push(Op::SetRefTarget(rf, sig));
+        }
+    }
+    if variant % 5 == 2 {
+        // a second model of the same version whose AR-PACKAGES already holds a package named like one of the first model
+        g.push(Op::NewModel);
+        let m = g.ex.models.len() - 1;
+        g.push(Op::CreateFile(m, b"g0.arxml".to_vec(), VERSIONS[0]));
+        let root2 = g.ex.hidx[&g.ex.models[m].root_element()];
+        let r = g.push(Op::CreateSub(root2, n.elidx("AR-PACKAGES")));
+        if let Some(pk2) = r.strip_prefix("R OK h").and_then(|x| x.parse::<usize>().ok()) {
+            let r = g.push(Op::CreateNamed(pk2, n.elidx("AR-PACKAGE"), b"p1".to_vec()));
+            if let Some(p) = r.strip_prefix("R OK h").and_then(|x| x.parse::<usize>().ok()) {
+                g.push(Op::CreateSub(p, n.elidx("ELEMENTS")));
+            }
         }
     }
     let r = g.push(Op::CreateNamed(elems[0], n.elidx("SYSTEM"), b"a".to_vec()));
